@@ -78,7 +78,8 @@ package smtp
 // ---------------------------------------------------------------------------------------
 
 //@ contract (*Conn).reset(c)
-//@   prop C03 C05 C06 C07 C08 C13
+//@   prop C03 C05 C06 C07 C08 C13 C19
+//@   ensures @C19 the-error-count-belongs-to-the-connection-not-to-the-transaction: c.errCount == old(c.errCount)
 //@   requires connWF(c) && sessOK(c)
 //@   modifies c.bdatPipe, c.bdatStatus, c.bytesReceived, c.fromReceived, c.recipients, c.cbReset, c.bdatPipe.state
 //@   ensures tx-discarded-and-status-collector-dropped: !c.fromReceived && len(c.recipients) == 0 && c.bdatPipe == nil && c.bdatStatus == nil && c.bytesReceived == 0
@@ -159,7 +160,7 @@ package smtp
 //@   ensures @C06 budget-is-limit: dr.limited == (c.server.MaxMessageBytes > 0) && (dr.limited ==> dr.n == c.server.MaxMessageBytes && dr.limit == c.server.MaxMessageBytes)
 
 //@ contract (*Conn).handleData(c, arg)
-//@   prop C02 C03 C04 C08
+//@   prop C02 C03 C04 C06 C08
 //@   requires connInv(c) && !c.closed && c.server.ErrorLog != nil
 //@   modifies c.bdatPipe, c.bdatStatus, c.bytesReceived, c.fromReceived, c.recipients, c.replies, c.finals, c.lastCode, c.cbData, c.cbReset, c.bdatPipe.state, c.text.R.pos, c.text.R.iofail, c.text.R.unreadable, c.closed, c.session, c.cbLogout, c.session.loggedOut, *chan
 //@   ensures inv: connInv(c)
@@ -246,6 +247,7 @@ package smtp
 //@   before Session.Mail: @C11,C14 auth-was-well-formed: has(args, "AUTH") ==> xtextDecOK(args["AUTH"]) && xtextDec(args["AUTH"]) != "" && (xtextDec(args["AUTH"]) == "<>" ==> deref($2.Auth) == "")
 //@   before Session.Mail: @C11 flags-carry-no-value: (has(args, "SMTPUTF8") ==> args["SMTPUTF8"] == "") && (has(args, "REQUIRETLS") ==> args["REQUIRETLS"] == "")
 //@   before Session.Mail: @C11,C14 only-known-parameters: forall k: string :: has(args, k) ==> k == "SIZE" || k == "SMTPUTF8" || k == "REQUIRETLS" || k == "BODY" || k == "RET" || k == "ENVID" || k == "AUTH"
+//@   before decodeXtext: @C12 a-parameter-of-a-disabled-extension-is-refused-before-its-value-is-looked-at: key == "ENVID" ==> c.server.EnableDSN
 //@   before (*Conn).writeResponse: @C12 refused-504-only-if-disabled: $1 == 504 ==> (key == "SMTPUTF8" && !c.server.EnableSMTPUTF8) || (key == "REQUIRETLS" && !c.server.EnableREQUIRETLS) || (key == "BODY" && !c.server.EnableBINARYMIME) || ((key == "RET" || key == "ENVID") && !c.server.EnableDSN)
 //@   loop 1:
 //@     invariant opts != nil && !old(alloc(opts))
@@ -279,6 +281,10 @@ package smtp
 //@   ensures @C03 limit-refused-without-callback: c.server.MaxRecipients > 0 && len(old(c.recipients)) >= c.server.MaxRecipients ==> c.cbRcpt == old(c.cbRcpt)
 //@   ensures @C03 refused-without-callback-is-4xx-5xx: c.cbRcpt == old(c.cbRcpt) ==> c.lastCode >= 400 && c.lastCode <= 599
 //@   before (*Conn).writeResponse: @C12 refused-504-only-if-disabled: $1 == 504 ==> ((key == "NOTIFY" || key == "ORCPT") && !c.server.EnableDSN) || (key == "RRVS" && !c.server.EnableRRVS)
+//@   before time.Parse: @C12 a-parameter-of-a-disabled-extension-is-refused-before-its-value-is-looked-at: c.server.EnableRRVS
+//@   before strings.Cut: @C12 a-parameter-of-a-disabled-extension-is-refused-before-its-value-is-looked-at: c.server.EnableRRVS
+//@   before decodeTypedAddress: @C12 a-parameter-of-a-disabled-extension-is-refused-before-its-value-is-looked-at: c.server.EnableDSN
+//@   before strings.Split: @C12 a-parameter-of-a-disabled-extension-is-refused-before-its-value-is-looked-at: c.server.EnableDSN
 //@   before Session.Rcpt: @C11,C14 mailbox-as-parsed-from-this-line: $1 == resultof("(*parser).parsePath", 1, 1) && $1 == recipient
 //@   before Session.Rcpt: @C11,C14 path-was-accepted-by-the-parser: resultof("(*parser).parsePath", 1, 2) == nil && resultof("parseArgs", 1, 2) == nil
 //@   before Session.Rcpt: @C11,C14 fresh-options-object: $2 == opts && !wasalloc($2)
@@ -590,17 +596,18 @@ package smtp
 // ---------------------------------------------------------------------------------------
 
 //@ contract (*Conn).handleDataLMTP$1()
-//@   prop C02 C03 C08 C13
+//@   prop C02 C03 C06 C08 C13
 //@   requires c != nil && c.server != nil && c.conn != nil && c.server.ErrorLog != nil && status != nil && done != nil
 //@   requires r != nil && drInv(r) && lmtpSession != nil && sessCur(lmtpSession) && lmtpSession.conn == c && c.fromReceived && len(c.recipients) >= 1
 //@   requires channels-of-different-element-types-are-different-channels: forall a: string :: has(status.statusMap, a) ==> status.statusMap[a] != done
+//@   requires @C06 the-reader-of-this-message-is-new-and-enforces-the-limit: r.limited == (c.server.MaxMessageBytes > 0) && (r.limited ==> r.n == c.server.MaxMessageBytes) && r.state == 0 && r.delivered == 0
 //@   modifies r.state, r.n, r.delivered, r.limited, r.r.pos, r.r.iofail, r.r.unreadable, c.cbData, *chan
 //@   ensures @C02,C01 drained: r.state == 5 || r.r.iofail
 //@   ensures reader-consistent: drInv(r) && r.r.pos >= old(r.r.pos)
 //@   ensures @C03 one-data-callback: c.cbData == old(c.cbData) + 1
 
 //@ contract (*Conn).handleDataLMTP(c)
-//@   prop C02 C03 C04 C08 C13
+//@   prop C02 C03 C04 C06 C08 C13
 //@   requires connInv(c) && !c.closed && c.server.LMTP && c.fromReceived && len(c.recipients) >= 1 && c.server.ErrorLog != nil && c.bdatPipe == nil
 //@   modifies c.replies, c.finals, c.lastCode, c.cbData, c.text.R.pos, c.text.R.iofail, c.text.R.unreadable, c.closed, c.session, c.cbLogout, c.session.loggedOut, c.bdatPipe, c.bdatPipe.state, *chan
 //@   join done: (*Conn).handleDataLMTP$1
@@ -790,6 +797,7 @@ package smtp
 //@   modifies c.text.cmds, c.text.Reader.resps
 //@   ensures @C15 one-line: c.text.cmds == old(c.text.cmds) + 1
 //@   ensures err == nil ==> w != nil && istype(w, "*dataCloser") && !wasalloc(w)
+//@   ensures @C16,C18 the-writer-belongs-to-this-client-and-has-no-callback: err == nil ==> asref(w, "*dataCloser").c == c && asref(w, "*dataCloser").statusCb == nil && !asref(w, "*dataCloser").closed
 
 //@ contract (*Client).LMTPData(c, statusCb) (w, err)
 //@   prop C15 C18
@@ -797,6 +805,7 @@ package smtp
 //@   modifies c.text.cmds, c.text.Reader.resps
 //@   ensures @C15 at-most-one-line: c.text.cmds <= old(c.text.cmds) + 1
 //@   ensures err == nil ==> w != nil && istype(w, "*dataCloser") && !wasalloc(w)
+//@   ensures @C18 the-writer-reports-to-the-callback-given-and-to-nobody-if-none-was-given: err == nil ==> asref(w, "*dataCloser").c == c && asref(w, "*dataCloser").statusCb == statusCb && !asref(w, "*dataCloser").closed
 
 // ---------------------------------------------------------------------------------------
 // Client: end of data (C16, C18), SendMail, AUTH (C09), STARTTLS (C10)
